@@ -7,6 +7,7 @@
 -/
 import Proofs.Lemmas.Cleanup
 import Xsel.Eval
+import Proofs.Lemmas.MonoEval
 
 namespace Xsel.C03
 open Xsel
@@ -78,5 +79,73 @@ theorem count_union (p q : List Nat) (hp : p.Nodup) (hq : q.Nodup) :
       by_cases h : f a <;> simp [h] <;> omega
   have := hsplit (fun x => p.contains x) q
   omega
+
+end Xsel.C03
+
+/-! ## every node-set result is duplicate-free, in range and strictly monotone
+
+  (appended; the proofs are in Proofs/Lemmas/EvalOk.lean, EvalAsc.lean and MonoEval.lean) -/
+
+namespace Xsel.C03
+open Xsel Arena
+
+/-- **result_monotone** — on a well-formed arena (`wfb a`), with node-set variables that list
+    cells of the arena in document order (`EnvOk`), and a context node-set that lists cells of
+    the arena, each once (`Val.Ok`), strictly ascending or strictly descending (`Val.Mono`):
+    every node-set the Go-shaped evaluator returns is listed strictly ascending or strictly
+    descending in document order — never a mixture —, so contains each node at most once, and
+    contains only cells of the queried arena. -/
+theorem result_monotone (a : Arena) (h : wfb a = true) (e : Expr) (c : Ctx) (ha : c.a = a)
+    (henv : EnvOk a c.env) (hok : Val.Ok a c.result) (hmono : Val.Mono c.result) (l : List Nat)
+    (hv : eval Model.sem e c = .ok (.nodes l)) :
+    (l.Pairwise (· < ·) ∨ l.Pairwise (· > ·)) ∧ l.Nodup ∧ ∀ j ∈ l, j < a.size := by
+  have h1 : Val.Mono (.nodes l) := eval_mono semOk_model e c _ henv hmono hv
+  have h2 : Val.Ok a (.nodes l) := eval_ok h e c _ ha henv hok hv
+  exact ⟨h1, h2.2, h2.1⟩
+
+/-- the same for the arguments of a call (every value-producing position) -/
+theorem args_monotone (a : Arena) (h : wfb a = true) (es : Exprs) (c : Ctx) (ha : c.a = a)
+    (henv : EnvOk a c.env) (hok : Val.Ok a c.result) (hmono : Val.Mono c.result) (vs : List Val)
+    (hv : evalArgs Model.sem es c = .ok vs) :
+    ∀ l, Val.nodes l ∈ vs →
+      (l.Pairwise (· < ·) ∨ l.Pairwise (· > ·)) ∧ l.Nodup ∧ ∀ j ∈ l, j < a.size := by
+  intro l hl
+  have h1 : Val.Mono (.nodes l) := evalArgs_mono semOk_model es c vs henv hmono hv _ hl
+  have h2 : Val.Ok a (.nodes l) := evalArgs_ok h es c vs ha henv hok hv _ hl
+  exact ⟨h1, h2.2, h2.1⟩
+
+/-- `exec.Exec` from a start node of the arena -/
+theorem run_monotone (a : Arena) (h : wfb a = true) (env : Env) (henv : EnvOk a env)
+    (start : Nat) (hstart : start < a.size) (e : Expr) (l : List Nat)
+    (hv : Model.run a env start e = .ok (.nodes l)) :
+    (l.Pairwise (· < ·) ∨ l.Pairwise (· > ·)) ∧ l.Nodup ∧ ∀ j ∈ l, j < a.size :=
+  result_monotone a h e _ rfl henv (Val.Ok.single hstart) (Val.Mono.single start) l hv
+
+/-- the specification evaluator lists its node-sets monotonically as well -/
+theorem spec_result_monotone (a : Arena) (e : Expr) (c : Ctx) (henv : EnvOk a c.env)
+    (hmono : Val.Mono c.result) (l : List Nat) (hv : eval Spec.sem e c = .ok (.nodes l)) :
+    l.Pairwise (· < ·) ∨ l.Pairwise (· > ·) :=
+  eval_mono semOk_spec e c _ henv hmono hv
+
+/-- **forward_expr_ascending** — `ascending ca e` (Proofs/Lemmas/EvalBasic.lean) is the syntactic
+    class "uses no reverse axis at its outermost path": unions, filter expressions, variables,
+    the root, steps along a forward axis (`self` steps keep the order of their base; `ca` says
+    whether the context node-set is ascending).  For such an expression the node-set is listed in
+    ASCENDING document order. -/
+theorem forward_expr_ascending (a : Arena) (e : Expr) (ca : Bool) (c : Ctx)
+    (henv : EnvOk a c.env) (hctx : ca = true → Val.Asc c.result)
+    (hasc : ascending ca e = true) (l : List Nat) (hv : eval Model.sem e c = .ok (.nodes l)) :
+    l.Pairwise (· < ·) :=
+  eval_asc semOk_model e ca c _ hctx henv hasc hv
+
+/-- every union is ascending, whatever its operands (restated at the level of `eval`) -/
+theorem union_result_ascending (sem : Sem) (c : Ctx) (x y : Expr) (l : List Nat)
+    (hv : eval sem (.bin .union x y) c = .ok (.nodes l)) : l.Pairwise (· < ·) := by
+  rw [eval] at hv
+  simp only [bind_ok] at hv
+  obtain ⟨p, _, q, _, hv⟩ := hv
+  cases p <;> cases q <;> simp only [pure_ok, throw_ok, Val.nodes.injEq] at hv
+  subst hv
+  exact cleanupFwd_strict _
 
 end Xsel.C03
